@@ -159,4 +159,4 @@ def gen(rng, tier):
 def run(tier, seed):
     return run_simple("C06", tier, seed, gen, TRUSTED,
                       "seeds × messages of every length 0..=L in pure and pre-hashed mode (detached, combined, object API agree inside the runner); every single-bit mutation of (message, signature, public key) for base cases; S+kL for all k that fit; all small-order and non-canonical encodings (with sign-bit variants) as R and as public key; mode cross-overs; accept/reject compared impl vs Lean strict-verification spec vs libsodium; distinct by (op, implementation answer)",
-                      ["dalek/sha2 modelled by Lean specs"])
+                      ["dalek/sha2 modelled by Lean specs"], concurrent=True)
